@@ -137,6 +137,59 @@ func extractC02(f *facts) {
 			return true
 		})
 	}
+	// --- Attack: every site that starts a worker, with the statements before it in the same block (the WaitGroup
+	// must be told about exactly the goroutines started: one Add(1) immediately before each `go a.attack`), and the
+	// statements that touch the `workers` variable before the first spawn (the clamp to max-workers) ---
+	var spawnSites, workersPrelude []string
+	if fd := funcDecl(file, "Attacker", "Attack"); fd != nil && fd.Body != nil {
+		var walk func(list []ast.Stmt)
+		walk = func(list []ast.Stmt) {
+			for i, st := range list {
+				if g, ok := st.(*ast.GoStmt); ok && selName(g.Call.Fun) == "attack" {
+					from := i - 2
+					if from < 0 {
+						from = 0
+					}
+					var before []string
+					for _, b := range list[from:i] {
+						before = append(before, strings.Join(strings.Fields(render(f.fset, b)), " "))
+					}
+					spawnSites = append(spawnSites, strings.Join(before, "; ")+" => go attack")
+				}
+			}
+		}
+		ast.Inspect(fd.Body, func(n ast.Node) bool {
+			switch v := n.(type) {
+			case *ast.BlockStmt:
+				walk(v.List)
+			case *ast.CaseClause:
+				walk(v.Body)
+			case *ast.CommClause:
+				walk(v.Body)
+			}
+			return true
+		})
+		for _, st := range fd.Body.List {
+			if _, isFor := st.(*ast.ForStmt); isFor {
+				break
+			}
+			txt := strings.Join(strings.Fields(render(f.fset, st)), " ")
+			if strings.Contains(txt, "workers") || strings.Contains(txt, "wg.") {
+				workersPrelude = append(workersPrelude, txt)
+			}
+		}
+		// any other use of the WaitGroup's Add in Attack
+		nAdd := 0
+		ast.Inspect(fd.Body, func(n ast.Node) bool {
+			if c, ok := n.(*ast.CallExpr); ok && selName(c.Fun) == "Add" {
+				nAdd++
+			}
+			return true
+		})
+		f.def("attackWaitGroupAdds", "Nat", itoa(nAdd))
+	}
+	f.def("attackSpawnSites", "List (List Nat)", leanBytesList(spawnSites))
+	f.def("attackWorkersPrelude", "List (List Nat)", leanBytesList(workersPrelude))
 	f.def("attackChans", "List (List Nat)", leanBytesList(chans))
 	f.def("attackDeferred", "List (List Nat)", leanBytesList(deferred))
 	f.def("attackSpawnGuard", "List Nat", leanBytes(spawnGuard))
